@@ -27,28 +27,34 @@ def table_findings():
         rows.append(f"| {f['property']} | {f['status']} | {('`'+f['commit']+'`') if f.get('commit') else ''} | {w} |")
     return "\n".join(rows)
 def table_detection():
-    rows=["| property | own mutants detected / total (quick) | independent seeds: detected / kept | seeds first missed, caught after strengthening | still missed |","|---|---|---|---|---|"]
-    res=collections.defaultdict(list)
+    rows=["| property | own mutants detected / total (quick) | independent seeds kept (round 1 + round 2) | detected by the first run of the check | detected now | first missed, caught after strengthening | still missed |","|---|---|---|---|---|---|---|"]
+    res=collections.defaultdict(dict)
     p=f'{V}/mutants/RESULTS.tsv'
     if os.path.exists(p):
         for l in open(p):
             f=l.rstrip('\n').split('\t')
-            if len(f)>=3: res[f[0]].append(f)
-    seeds=collections.defaultdict(list)
-    for mp in sorted(glob.glob(f'{V}/seeded/*/meta.json')):
-        try: m=json.load(open(mp))
-        except Exception: continue
-        seeds[m.get('property', os.path.basename(os.path.dirname(mp))[:3])].append((os.path.basename(os.path.dirname(mp)),m))
+            if len(f)>=3: res[f[0]][f[1]]=f[2]
+    first={}
+    for fn in ('ROUND1-first-run.tsv','ROUND2-first-run.tsv'):
+        if os.path.exists(f'{V}/seeded/{fn}'):
+            for l in open(f'{V}/seeded/{fn}'):
+                f=l.split()
+                if len(f)==2: first[f[0]]=f[1]
+    tot=[0,0,0,0]
     for l in open(f'{V}/properties.jsonl'):
         i=json.loads(l)['id']
-        own=[r for r in res[i] if not r[1].startswith(i+'-seed') and '-seed' not in r[1][:8]]
-        own=[r for r in res[i] if not re.match(r'^C\d+-seed\d+$', r[1])]
-        det=sum(1 for r in own if r[2]=='DETECTED')
-        sd=seeds[i]
-        sdet=sum(1 for n,m in sd if str(m.get('detected','')).startswith(('quick','thorough')))
-        after=[n for n,m in sd if 'after' in str(m.get('detected',''))]
-        missed=[n for n,m in sd if str(m.get('detected','')).startswith(('MISSED','pending'))]
-        rows.append(f"| {i} | {det}/{len(own) if own else len(glob.glob(f'{V}/mutants/{i}-*.patch'))}{'' if own else ' (not re-run in the final batch)'} | {sdet}/{len(sd)} | {', '.join(after)} | {', '.join(missed)} |")
+        own={k:v for k,v in res[i].items() if not re.match(r'^C\d+-seed\d+$', k)}
+        det=sum(1 for v in own.values() if v=='DETECTED')
+        nown=len(own) if own else len(glob.glob(f'{V}/mutants/{i}-*.patch'))
+        sd=[os.path.basename(os.path.dirname(mp)) for mp in sorted(glob.glob(f'{V}/seeded/{i}-seed*/meta.json')) if json.load(open(mp)).get('kept',True)]
+        f1=[n for n in sd if first.get(n)=='DETECTED']
+        now=[n for n in sd if res[i].get(n)=='DETECTED']
+        after=[n for n in sd if first.get(n)=='MISSED' and res[i].get(n)=='DETECTED']
+        missed=[n for n in sd if n in res[i] and res[i][n]!='DETECTED']
+        notrun=[n for n in sd if n not in res[i]]
+        tot[0]+=len(sd); tot[1]+=len(f1); tot[2]+=len(now); tot[3]+=len(missed)
+        rows.append(f"| {i} | {det}/{nown}{'' if own else ' (not re-run)'} | {len(sd)} | {len(f1)} | {len(now)}{(' ('+str(len(notrun))+' not re-run)') if notrun else ''} | {', '.join(n.split('-')[1] for n in after)} | {', '.join(missed)} |")
+    rows.append(f"| all | | {tot[0]} | {tot[1]} | {tot[2]} | | {tot[3]} |")
     return "\n".join(rows)
 gens={'asbuilt':table_asbuilt,'findings':table_findings,'detection':table_detection}
 s=open(f'{V}/DESIGN.md').read()
